@@ -311,3 +311,339 @@ Ltac internal_tac H :=
 Ltac return_tac H n k r :=
   split; [slots_tac H | split; [shape_tac |
     right; right; right; exists n, k, r; split; [reflexivity | split; [try rewrite wake_word; reflexivity | reflexivity]]]].
+Lemma ret_bnext count m t v n :
+  ret bc (cret count) m t v [FC (BNext n 1)] = (m, fst (start t n 1), start_stack t n 1).
+Proof. destruct n; reflexivity. Qed.
+
+Lemma ret_kspin count m t v c wc n k :
+  ret bc (cret count) m t v [KSpin 0 c wc; FC (BRet n k 1)]
+  = if wc <? c then (m, [], [KHead 0 c wc; FC (BRet n k 1)])
+    else (m, retev t k 1 ++ fst (start t n (S k)), start_stack t n (S k)).
+Proof. cbn [ret]. unfold kloop. destruct (wc <? c); [reflexivity|]. apply ret_bret. Qed.
+
+Lemma ksched_cases count m t c wc f e n k :
+  ksched bc (cret count) m t 0 c wc f e [FC (BRet n k 1)]
+  = if wc + 1 <? c then (wake m f, e ++ ev t 901 919 (Zn f), [KHead 0 c (wc + 1); FC (BRet n k 1)])
+    else (wake m f, (e ++ ev t 901 919 (Zn f)) ++ retev t k 1 ++ fst (start t n (S k)), start_stack t n (S k)).
+Proof. unfold ksched, kloop. destruct (wc + 1 <? c); [reflexivity|]. rewrite ret_bret. reflexivity. Qed.
+
+Lemma kstep_cases count m t sg :
+  Shape count sg -> slots_none m -> step_ok count m t sg (kstep bc (cret count) m t sg).
+Proof.
+  intros Sh H. destruct Sh as [|n|n k|f n k Hf|y n k Hy|f n k Hf|y wc n k Hy].
+  - (* done *) cbn. internal_tac H.
+  - (* start *) cbn [kstep]. rewrite ret_bnext. cbn [step_ok].
+    split; [slots_tac H | split; [shape_tac |]].
+    right; right; left. exists n. repeat split.
+  - (* fetch_add *) cbn [kstep ret cret].
+    destruct ((word m 0%nat + 1) mod count =? 0) eqn:E; cbn [step_ok app].
+    + split; [slots_tac H | split; [shape_tac |]]. right; left. exists n, k. rewrite E. repeat split.
+    + split; [slots_tac H | split; [shape_tac |]]. right; left. exists n, k. rewrite E. repeat split.
+  - (* push *) destruct Hf; cbn; internal_tac H.
+  - (* yield inside wait *)
+    destruct Hy; cbn [app kstep].
+    + cbn. internal_tac H.
+    + destruct ((st =? ST_WAITING) || (st =? ST_DONE) || (st =? ST_SAVING)).
+      * cbn. internal_tac H.
+      * rewrite ret_bret. cbn [step_ok]. return_tac H n k 0.
+    + destruct (fstate m t =? ST_RUNNING); cbn; internal_tac H.
+    + cbn. internal_tac H.
+    + cbn. internal_tac H.
+    + destruct (fstate m t =? ST_SAVING).
+      * cbn. internal_tac H.
+      * destruct (run_slots_cases m t [YLoop; FC (BRet n k 0)] H) as (m' & e & [E|E] & H' & W); rewrite E;
+          cbn [step_ok]; (split; [exact H'|split; [shape_tac|left; split; [reflexivity|rewrite W; reflexivity]]]).
+    + assert (H0 : slots_none (set_fstate m t ST_WAITING)) by slots_tac H.
+      destruct (run_slots_cases _ t [YLoop; FC (BRet n k 0)] H0) as (m' & e & [E|E] & H' & W); rewrite E;
+          cbn [step_ok]; (split; [exact H'|split; [shape_tac|left; split; [reflexivity|rewrite W; reflexivity]]]).
+    + cbn. internal_tac H.
+    + cbn. internal_tac H.
+  - (* pop loop *)
+    destruct Hf; cbn [kstep].
+    + cbn. internal_tac H.
+    + destruct (nnext m h).
+      * destruct (0 <? count - 1).
+        -- cbn. internal_tac H.
+        -- unfold kloop. destruct (wc <? count - 1).
+           ++ cbn. internal_tac H.
+           ++ rewrite ret_bret. cbn [step_ok]. return_tac H n k 1.
+      * cbn. internal_tac H.
+    + cbn. internal_tac H.
+    + cbn. internal_tac H.
+    + cbn. internal_tac H.
+    + cbn. internal_tac H.
+    + destruct (fstate m f =? ST_WAITING).
+      * cbn. internal_tac H.
+      * rewrite ksched_cases. destruct (wc + 1 <? count - 1); cbn [step_ok].
+        -- internal_tac H.
+        -- return_tac H n k 1.
+    + rewrite ksched_cases. destruct (wc + 1 <? count - 1); cbn [step_ok].
+      * internal_tac H.
+      * return_tac H n k 1.
+  - (* yield inside the pop loop *)
+    destruct Hy; cbn [app kstep].
+    + cbn. internal_tac H.
+    + destruct ((st =? ST_WAITING) || (st =? ST_DONE) || (st =? ST_SAVING)).
+      * cbn. internal_tac H.
+      * rewrite ret_kspin. destruct (wc <? count - 1); cbn [step_ok].
+        -- internal_tac H.
+        -- return_tac H n k 1.
+    + destruct (fstate m t =? ST_RUNNING); cbn; internal_tac H.
+    + cbn. internal_tac H.
+    + cbn. internal_tac H.
+    + destruct (fstate m t =? ST_SAVING).
+      * cbn. internal_tac H.
+      * destruct (run_slots_cases m t [YLoop; KSpin 0 (count - 1) wc; FC (BRet n k 1)] H) as (m' & e & [E|E] & H' & W); rewrite E;
+          cbn [step_ok]; (split; [exact H'|split; [shape_tac|left; split; [reflexivity|rewrite W; reflexivity]]]).
+    + assert (H0 : slots_none (set_fstate m t ST_WAITING)) by slots_tac H.
+      destruct (run_slots_cases _ t [YLoop; KSpin 0 (count - 1) wc; FC (BRet n k 1)] H0) as (m' & e & [E|E] & H' & W); rewrite E;
+          cbn [step_ok]; (split; [exact H'|split; [shape_tac|left; split; [reflexivity|rewrite W; reflexivity]]]).
+    + cbn. internal_tac H.
+    + cbn. internal_tac H.
+Qed.
+
+(* projections of lstep *)
+Ltac lstep_proj x t :=
+  unfold lstep;
+  destruct (match stk (base x) t with
+            | WXchg _ n :: _ => (chain x ++ [(n, t)], infl x)
+            | KSetHead _ _ _ _ _ :: _ => (tl (chain x), option_map snd (hd_error (chain x)))
+            | KState _ _ _ f :: _ => (chain x, if fstate (mem (base x)) f =? ST_WAITING then infl x else None)
+            | KReady _ _ _ _ :: _ => (chain x, None)
+            | _ => (chain x, infl x)
+            end) as [c i]; reflexivity.
+
+Lemma lstep_ent x t : ent (lstep x t) =
+  match bot (stk (base x) t), bot (stk (fst (step (base x) t)) t) with
+  | Some (BNext _ _), Some (BArrived _ k) => ent x ++ [(t, k)]
+  | Some (BRet _ _ _), Some (BArrived _ k) => ent x ++ [(t, k)]
+  | _, _ => ent x
+  end.
+Proof. lstep_proj x t. Qed.
+Lemma lstep_arr x t : arr (lstep x t) =
+  match bot (stk (base x) t), bot (stk (fst (step (base x) t)) t) with
+  | Some (BArrived _ k), Some (BRet _ _ _) => arr x ++ [(t, k, word (mem (base x)) 0%nat)]
+  | _, _ => arr x
+  end.
+Proof. lstep_proj x t. Qed.
+Lemma lstep_rets x t : rets (lstep x t) =
+  match bot (stk (base x) t), bot (stk (fst (step (base x) t)) t) with
+  | Some (BRet _ k r), Some (BArrived _ _) => rets x ++ [(t, k, r)]
+  | Some (BRet _ k r), None => rets x ++ [(t, k, r)]
+  | _, _ => rets x
+  end.
+Proof. lstep_proj x t. Qed.
+
+Definition sbit (count v : Z) : Z := if (v + 1) mod count =? 0 then 1 else 0.
+
+Lemma step_stk_other s t u : u <> t -> stk (fst (step s t)) u = stk s u.
+Proof.
+  intros N. unfold step. destruct (kstep bc (cret (cnt s)) (mem s) t (stk s t)) as [[m1 e1] s1].
+  cbn. apply upd_other. exact N.
+Qed.
+Lemma step_cnt s t : cnt (fst (step s t)) = cnt s.
+Proof. unfold step. destruct (kstep bc (cret (cnt s)) (mem s) t (stk s t)) as [[m1 e1] s1]. reflexivity. Qed.
+Lemma step_nthr s t : nthr (fst (step s t)) = nthr s.
+Proof. unfold step. destruct (kstep bc (cret (cnt s)) (mem s) t (stk s t)) as [[m1 e1] s1]. reflexivity. Qed.
+
+(* the six kinds of steps, as seen on the ghost logs *)
+Definition same_logs (x x' : ist) := ent x' = ent x /\ arr x' = arr x /\ rets x' = rets x.
+
+Lemma lstep_cases count x t :
+  cnt (base x) = count -> slots_none (mem (base x)) -> Shape count (stk (base x) t) ->
+  let s := base x in let x' := lstep x t in let s' := base x' in
+  slots_none (mem s') /\ Shape count (stk s' t) /\
+  ( (bot (stk s' t) = bot (stk s t) /\ word (mem s') 0%nat = word (mem s) 0%nat /\ same_logs x x')
+    \/ (exists n k, bot (stk s t) = Some (BArrived n k) /\
+                    bot (stk s' t) = Some (BRet n k (sbit count (word (mem s) 0%nat))) /\
+                    word (mem s') 0%nat = word (mem s) 0%nat + 1 /\
+                    arr x' = arr x ++ [(t, k, word (mem s) 0%nat)] /\ ent x' = ent x /\ rets x' = rets x)
+    \/ (bot (stk s t) = Some (BNext 0 1) /\ bot (stk s' t) = None /\
+        word (mem s') 0%nat = word (mem s) 0%nat /\ same_logs x x')
+    \/ (exists n, bot (stk s t) = Some (BNext (S n) 1) /\ bot (stk s' t) = Some (BArrived n 1) /\
+                  word (mem s') 0%nat = word (mem s) 0%nat /\
+                  ent x' = ent x ++ [(t, 1%nat)] /\ arr x' = arr x /\ rets x' = rets x)
+    \/ (exists k r, bot (stk s t) = Some (BRet 0 k r) /\ bot (stk s' t) = None /\
+                    word (mem s') 0%nat = word (mem s) 0%nat /\
+                    rets x' = rets x ++ [(t, k, r)] /\ ent x' = ent x /\ arr x' = arr x)
+    \/ (exists n k r, bot (stk s t) = Some (BRet (S n) k r) /\ bot (stk s' t) = Some (BArrived n (S k)) /\
+                      word (mem s') 0%nat = word (mem s) 0%nat /\
+                      rets x' = rets x ++ [(t, k, r)] /\ ent x' = ent x ++ [(t, S k)] /\ arr x' = arr x) ).
+Proof.
+  intros Hc H Sh s x' s'.
+  pose proof (kstep_cases count (mem s) t (stk s t) Sh H) as K.
+  assert (Es' : s' = fst (step s t)) by apply lstep_erase.
+  unfold same_logs. unfold x'. rewrite lstep_ent, lstep_arr, lstep_rets. fold s. rewrite <- Es'.
+  assert (Est : s' = fst (step s t)) by exact Es'.
+  unfold step in Est. fold s in Hc. rewrite Hc in Est.
+  destruct (kstep bc (cret count) (mem s) t (stk s t)) as [[m1 e1] s1].
+  cbn [fst] in Est. unfold step_ok in K. destruct K as (K1 & K2 & K3).
+  assert (Em : mem s' = m1) by (rewrite Est; reflexivity).
+  assert (Ek : stk s' t = s1) by (rewrite Est; cbn; apply upd_same).
+  rewrite Em, Ek. split; [exact K1|]. split; [exact K2|].
+  destruct K3 as [(B & W)|[(n & k & E & W & B)|[(n & E & W & E1)|(n & k & r & B & W & E1)]]].
+  - left. rewrite B. split; [reflexivity|]. split; [exact W|].
+    destruct (bot (stk s t)) as [[]|]; repeat split.
+  - right; left. exists n, k. rewrite E in *. cbn [bot last]. rewrite B.
+    unfold sbit. repeat split; assumption.
+  - rewrite E. cbn [bot last]. rewrite E1. destruct n as [|n]; cbn.
+    + right; right; left. repeat split; assumption.
+    + right; right; right; left. exists n. repeat split; assumption.
+  - rewrite B, E1. destruct n as [|n]; cbn.
+    + right; right; right; right; left. exists k, r. repeat split; assumption.
+    + right; right; right; right; right. exists n, k, r. repeat split; assumption.
+Qed.
+
+Definition bot_ok (count : Z) (x : ist) (t : nat) : Prop :=
+  match bot (stk (base x) t) with
+  | Some (BNext n k) => (forall k' v, ~ In (t, k', v) (arr x)) /\ (forall k' r, ~ In (t, k', r) (rets x))
+  | Some (BArrived n k) => In (t, k) (ent x) /\ (forall k' v, In (t, k', v) (arr x) -> (k' < k)%nat)
+                           /\ (forall k' r, In (t, k', r) (rets x) -> (k' < k)%nat)
+  | Some (BRet n k r) => (exists v, In (t, k, v) (arr x) /\ r = sbit count v)
+                         /\ (forall k' v, In (t, k', v) (arr x) -> (k' <= k)%nat)
+                         /\ (forall k' r', In (t, k', r') (rets x) -> (k' < k)%nat)
+  | None => True
+  end.
+
+Record L1 (count : Z) (x : ist) : Prop := {
+  l1_cnt : cnt (base x) = count;
+  l1_slots : slots_none (mem (base x));
+  l1_shape : forall t, Shape count (stk (base x) t);
+  l1_word : word (mem (base x)) 0%nat = Z.of_nat (length (arr x));
+  l1_tick : forall i t k v, nth_error (arr x) i = Some (t, k, v) -> v = Z.of_nat i;
+  l1_ent : forall t k v, In (t, k, v) (arr x) -> In (t, k) (ent x);
+  l1_rets : forall t k r, In (t, k, r) (rets x) -> exists v, In (t, k, v) (arr x) /\ r = sbit count v;
+  l1_nodup_arr : NoDup (map fst (arr x));
+  l1_nodup_rets : NoDup (map fst (rets x));
+  l1_bot : forall t, bot_ok count x t
+}.
+
+Lemma init_l1 count rounds : L1 count (iinit count rounds).
+Proof.
+  constructor; cbn.
+  - reflexivity.
+  - intros t. repeat split.
+  - intros t. constructor.
+  - reflexivity.
+  - intros i t k v E. destruct i; discriminate.
+  - intros t k v [].
+  - intros t k r [].
+  - constructor.
+  - constructor.
+  - intros t. unfold bot_ok. cbn. split; intros; intros [].
+Qed.
+
+Lemma nodup_snoc {A} (l : list A) a : NoDup l -> ~ In a l -> NoDup (l ++ [a]).
+Proof.
+  intros N H. apply NoDup_rev in N. rewrite <- (rev_involutive (l ++ [a])). apply NoDup_rev.
+  rewrite rev_app_distr. cbn. constructor; [|exact N]. rewrite <- in_rev. exact H.
+Qed.
+
+Lemma in_map_fst {A B} (l : list (A * B)) a : In a (map fst l) -> exists b, In (a, b) l.
+Proof. intros H. apply in_map_iff in H. destruct H as [[a' b] [E I]]. cbn in E. subst. eauto. Qed.
+
+Lemma bot_ok_other count x x' t u :
+  u <> t -> stk (base x') u = stk (base x) u ->
+  (forall k v, In (u, k, v) (arr x') <-> In (u, k, v) (arr x)) ->
+  (forall k r, In (u, k, r) (rets x') <-> In (u, k, r) (rets x)) ->
+  (forall k, In (u, k) (ent x) -> In (u, k) (ent x')) ->
+  bot_ok count x u -> bot_ok count x' u.
+Proof.
+  intros N E A R En. unfold bot_ok. rewrite E.
+  destruct (bot (stk (base x) u)) as [[n k|n k|n k r]|]; auto.
+  - intros [H1 H2]. split; intros; rewrite ?A, ?R; auto.
+  - intros (H1 & H2 & H3). split; [auto|]. split; intros k' v; rewrite ?A, ?R; eauto.
+  - intros ((v & H0 & H0') & H2 & H3). split; [exists v; rewrite A; auto|].
+    split; intros k' v'; rewrite ?A, ?R; eauto.
+Qed.
+
+Lemma in_snoc {A} (l : list A) a b : In a (l ++ [b]) <-> In a l \/ a = b.
+Proof. rewrite in_app_iff. cbn. intuition. Qed.
+
+Lemma l1_step count x t : L1 count x -> L1 count (lstep x t).
+Proof.
+  intros I. destruct I as [Ic Is Ish Iw It Ie Ir Ina Inr Ib].
+  pose proof (lstep_cases count x t Ic Is (Ish t)) as K. cbv zeta in K.
+  destruct K as (K1 & K2 & K3).
+  assert (Eo : forall u, u <> t -> stk (base (lstep x t)) u = stk (base x) u).
+  { intros u N. rewrite lstep_erase. apply step_stk_other. exact N. }
+  assert (Sh' : forall u, Shape count (stk (base (lstep x t)) u)).
+  { intros u. destruct (Nat.eq_dec u t) as [->|N]; [exact K2|]. rewrite Eo by exact N. apply Ish. }
+  assert (Cn : cnt (base (lstep x t)) = count) by (rewrite lstep_erase, step_cnt; exact Ic).
+  pose proof (Ib t) as Bt. unfold bot_ok in Bt.
+  destruct K3 as [(B & W & E1 & E2 & E3)|[(n & k & B & B' & W & E2 & E1 & E3)|[(B & B' & W & E1 & E2 & E3)|
+                 [(n & B & B' & W & E1 & E2 & E3)|[(k & r & B & B' & W & E3 & E1 & E2)|(n & k & r & B & B' & W & E3 & E1 & E2)]]]]].
+  - (* internal *)
+    constructor; try assumption; try (rewrite ?E1, ?E2, ?E3; assumption).
+    + rewrite W, E2. exact Iw.
+    + intros u. destruct (Nat.eq_dec u t) as [->|N].
+      * unfold bot_ok. rewrite B, E1, E2, E3. exact (Ib t).
+      * apply (bot_ok_other count x _ t u N (Eo u N)); try (intros; rewrite ?E1, ?E2, ?E3; tauto). apply Ib.
+  - (* arrival *)
+    rewrite B in Bt. destruct Bt as (Bt1 & Bt2 & Bt3).
+    constructor; try assumption; try (rewrite ?E1, ?E3; assumption).
+    + rewrite W, E2, Iw, app_length. cbn. lia.
+    + intros i t0 k0 v0. rewrite E2. intros Hn.
+      destruct (Nat.lt_ge_cases i (length (arr x))) as [L|L].
+      * rewrite nth_error_app1 in Hn by exact L. eapply It; eauto.
+      * rewrite nth_error_app2 in Hn by exact L.
+        destruct (i - length (arr x))%nat eqn:D; cbn in Hn; [|destruct n0; discriminate].
+        injection Hn as <- <- <-. rewrite Iw. f_equal. lia.
+    + intros t0 k0 v0. rewrite E2, E1, in_snoc. intros [H|H]; [eauto|]. injection H as -> -> ->. exact Bt1.
+    + intros t0 k0 r0. rewrite E3, E2. intros H. destruct (Ir _ _ _ H) as (v & Hv & Hr).
+      exists v. rewrite in_snoc. auto.
+    + rewrite E2, map_app. cbn. apply nodup_snoc; [exact Ina|].
+      intros H. apply in_map_fst in H. destruct H as [v H]. specialize (Bt2 _ _ H). lia.
+    + intros u. destruct (Nat.eq_dec u t) as [->|N].
+      * unfold bot_ok. rewrite B', E2, E3. split; [|split].
+        -- exists (word (mem (base x)) 0%nat). rewrite in_snoc. auto.
+        -- intros k' v. rewrite in_snoc. intros [H|H]; [specialize (Bt2 _ _ H); lia|]. injection H as -> ->. lia.
+        -- exact Bt3.
+      * apply (bot_ok_other count x _ t u N (Eo u N)); try (intros; rewrite ?E1, ?E2, ?E3; tauto); [|apply Ib].
+        intros k0 v0. rewrite E2, in_snoc. split; [intros [H|H]; [exact H|congruence]|auto].
+  - (* start, no rounds *)
+    constructor; try assumption; try (rewrite ?E1, ?E2, ?E3; assumption).
+    + rewrite W, E2. exact Iw.
+    + intros u. destruct (Nat.eq_dec u t) as [->|N].
+      * unfold bot_ok. rewrite B'. exact I.
+      * apply (bot_ok_other count x _ t u N (Eo u N)); try (intros; rewrite ?E1, ?E2, ?E3; tauto). apply Ib.
+  - (* start, first round *)
+    rewrite B in Bt. destruct Bt as (Bt1 & Bt2).
+    constructor; try assumption; try (rewrite ?E2, ?E3; assumption).
+    + rewrite W, E2. exact Iw.
+    + intros t0 k0 v0. rewrite E2, E1, in_snoc. eauto.
+    + intros u. destruct (Nat.eq_dec u t) as [->|N].
+      * unfold bot_ok. rewrite B', E1, E2, E3. split; [rewrite in_snoc; auto|].
+        split; intros k' v H; exfalso; [exact (Bt1 _ _ H)|exact (Bt2 _ _ H)].
+      * apply (bot_ok_other count x _ t u N (Eo u N)); try (intros; rewrite ?E1, ?E2, ?E3; tauto); [|apply Ib].
+        intros k0. rewrite E1, in_snoc. auto.
+  - (* return, last round *)
+    rewrite B in Bt. destruct Bt as ((v & Bv & Br) & Bt2 & Bt3).
+    constructor; try assumption; try (rewrite ?E1, ?E2; assumption).
+    + rewrite W, E2. exact Iw.
+    + intros t0 k0 r0. rewrite E3, E2, in_snoc. intros [H|H]; [eauto|]. injection H as -> -> ->. eauto.
+    + rewrite E3, map_app. cbn. apply nodup_snoc; [exact Inr|].
+      intros H. apply in_map_fst in H. destruct H as [r' H]. specialize (Bt3 _ _ H). lia.
+    + intros u. destruct (Nat.eq_dec u t) as [->|N].
+      * unfold bot_ok. rewrite B'. exact I.
+      * apply (bot_ok_other count x _ t u N (Eo u N)); try (intros; rewrite ?E1, ?E2, ?E3; tauto); [|apply Ib].
+        intros k0 r0. rewrite E3, in_snoc. split; [intros [H|H]; [exact H|congruence]|auto].
+  - (* return and enter the next round *)
+    rewrite B in Bt. destruct Bt as ((v & Bv & Br) & Bt2 & Bt3).
+    constructor; try assumption; try (rewrite ?E2; assumption).
+    + rewrite W, E2. exact Iw.
+    + intros t0 k0 v0. rewrite E2, E1, in_snoc. eauto.
+    + intros t0 k0 r0. rewrite E3, E2, in_snoc. intros [H|H]; [eauto|]. injection H as -> -> ->. eauto.
+    + rewrite E3, map_app. cbn. apply nodup_snoc; [exact Inr|].
+      intros H. apply in_map_fst in H. destruct H as [r' H]. specialize (Bt3 _ _ H). lia.
+    + intros u. destruct (Nat.eq_dec u t) as [->|N].
+      * unfold bot_ok. rewrite B', E1, E2, E3. split; [rewrite in_snoc; auto|]. split.
+        -- intros k' v' H. specialize (Bt2 _ _ H). lia.
+        -- intros k' r'. rewrite in_snoc. intros [H|H]; [specialize (Bt3 _ _ H); lia|]. injection H as -> ->. lia.
+      * apply (bot_ok_other count x _ t u N (Eo u N)); try (intros; rewrite ?E1, ?E2, ?E3; tauto); [| |apply Ib].
+        -- intros k0 r0. rewrite E3, in_snoc. split; [intros [H|H]; [exact H|congruence]|auto].
+        -- intros k0. rewrite E1, in_snoc. auto.
+Qed.
+
+Theorem ireach_l1 count rounds x : ireach count rounds x -> L1 count x.
+Proof. induction 1; [apply init_l1|apply l1_step; assumption]. Qed.
